@@ -6,25 +6,51 @@ import (
 	"os"
 	"path/filepath"
 
+	"github.com/syndtr/goleveldb/leveldb/storage"
 	"massnet.org/mass-wallet/config"
 	"massnet.org/mass-wallet/masswallet"
 	mwdb "massnet.org/mass-wallet/masswallet/db"
-	_ "massnet.org/mass-wallet/masswallet/db/ldb"
+	"massnet.org/mass-wallet/masswallet/db/ldb"
 	"vh/simnode"
 )
+
+// Store is a wallet database location: either a directory (the real CreateDB/OpenDB path,
+// 128 MiB write buffer) or an in-memory goleveldb storage that survives Close and can be
+// reopened, which is what makes thousands of fresh instances per minute affordable.
+type Store struct {
+	Dir string
+	Mem storage.Storage
+}
+
+// NewMemStore returns a fresh in-memory store.
+func NewMemStore() *Store { return &Store{Mem: storage.NewMemStorage()} }
+
+// OpenStore opens (or creates) the wallet database of a store.
+func OpenStore(st *Store) (mwdb.DB, error) {
+	if st.Mem != nil {
+		return ldb.VerifOpenStorage(st.Mem, 4<<20)
+	}
+	dbdir := filepath.Join(st.Dir, "wallet.db")
+	if _, serr := os.Stat(dbdir); serr == nil {
+		return mwdb.OpenDB("leveldb", dbdir)
+	}
+	os.MkdirAll(st.Dir, 0o755)
+	return mwdb.CreateDB("leveldb", dbdir)
+}
 
 // PubPass is the public passphrase used by every instance unless a scenario changes it.
 const PubPass = "publicpassVerif1"
 
 // Inst is one wallet manager over one wallet database directory.
 type Inst struct {
-	Dir  string
-	Raw  mwdb.DB // the real ldb.LevelDB
-	DB   mwdb.DB // what the wallet sees (Raw or a seam around it)
-	W    *masswallet.WalletManager
-	Srv  *simnode.Server
-	Cfg  *config.Config
-	Wrap func(mwdb.DB) mwdb.DB
+	Dir   string
+	Store *Store
+	Raw   mwdb.DB // the real ldb.LevelDB
+	DB    mwdb.DB // what the wallet sees (Raw or a seam around it)
+	W     *masswallet.WalletManager
+	Srv   *simnode.Server
+	Cfg   *config.Config
+	Wrap  func(mwdb.DB) mwdb.DB
 }
 
 // Config returns a wallet configuration with the given gap limit.
@@ -37,19 +63,17 @@ func Config(gap uint32) *config.Config {
 // Open creates (or reopens) the wallet database under dir and builds a WalletManager
 // exactly as loader.openWallet/createWallet do. wrap may interpose a db seam.
 func Open(dir string, n *simnode.Node, gap uint32, pubpass string, wrap func(mwdb.DB) mwdb.DB) (*Inst, error) {
-	dbdir := filepath.Join(dir, "wallet.db")
-	var raw mwdb.DB
-	var err error
-	if _, serr := os.Stat(dbdir); serr == nil {
-		raw, err = mwdb.OpenDB("leveldb", dbdir)
-	} else {
-		os.MkdirAll(dir, 0o755)
-		raw, err = mwdb.CreateDB("leveldb", dbdir)
-	}
+	return OpenAt(&Store{Dir: dir}, n, gap, pubpass, wrap)
+}
+
+// OpenAt is Open over an explicit store.
+func OpenAt(st *Store, n *simnode.Node, gap uint32, pubpass string, wrap func(mwdb.DB) mwdb.DB) (*Inst, error) {
+	raw, err := OpenStore(st)
 	if err != nil {
 		return nil, fmt.Errorf("open wallet db: %v", err)
 	}
-	i := &Inst{Dir: dir, Raw: raw, DB: raw, Srv: &simnode.Server{N: n}, Cfg: Config(gap), Wrap: wrap}
+	dir := st.Dir
+	i := &Inst{Dir: dir, Store: st, Raw: raw, DB: raw, Srv: &simnode.Server{N: n}, Cfg: Config(gap), Wrap: wrap}
 	if wrap != nil {
 		i.DB = wrap(raw)
 	}
